@@ -132,10 +132,12 @@ Fixpoint marshal_t (be : bool) (v : val) (c : mctx) {struct v} : mres :=
                else ({| mbuf := insert4 be n size_pos (mbuf c'); mfds := mfds c' |}, true))
       end
   | VVariant t x =>
-      (* Marshal::marshal_as_variant *)
+      (* Marshal::marshal_as_variant: len > 255 -> SignatureTooLong; validate_signature(&sig)? (fix ef1b771);
+         write_signature; self.marshal *)
       let sg := to_str t in
       if 255 <? len sg then (c, false)
-      else marshal_t be x {| mbuf := write_signature sg (mbuf c); mfds := mfds c |}
+      else if is_ok (validate_signature sg) then marshal_t be x {| mbuf := write_signature sg (mbuf c); mfds := mfds c |}
+      else (c, false)
   end.
 
 (** *** dynamic (Param) API; [depth] = number of containers entered *)
